@@ -575,6 +575,7 @@ func (c *FCtx) havocLoopGhosts(st *State, body *ast.BlockStmt) {
 	for pos, ord := range c.stmtOrd {
 		if lo <= pos && pos <= hi {
 			in["before "+ord] = true
+			in["after "+ord] = true
 		}
 	}
 	for _, at := range c.Contract.Ats {
@@ -600,6 +601,13 @@ func (c *FCtx) havocLoopGhosts(st *State, body *ast.BlockStmt) {
 
 func (c *FCtx) havocLoopHeap(e *Env, st *State, body *ast.BlockStmt, extra []ast.Node, spec *LoopSpec, entry *State) {
 	c.havocLoopGhosts(st, body)
+	// earlier iterations may have allocated
+	{
+		old := c.heapGet(st, "$alloc", SInt)
+		n := c.freshVar("$alloc", SInt)
+		st.heap["$alloc"] = n
+		st.assume(IGe(n, old))
+	}
 	if spec != nil && len(spec.Modifies) > 0 {
 		se := &SpecEnv{C: c, Pkg: e.Pkg, B: c.topBindings, Cur: st, Old: c.entry, Env: e}
 		for _, m := range spec.Modifies {
@@ -632,6 +640,7 @@ func (c *FCtx) havocLoopHeap(e *Env, st *State, body *ast.BlockStmt, extra []ast
 }
 
 func (c *FCtx) havocLocks(st *State, ws *Effects) {
+	c.havocGhostWrites(st, ws)
 	var calls []string
 	for k := range ws.Locks {
 		if strings.HasPrefix(k, "G$calls.") {
